@@ -217,6 +217,20 @@ in sequence (same elements, unspecified order) -/
 def sharingGraph (σ : List Name → List Name) (as : List (Name × Agent)) : Graph Name :=
   as.map (fun p => (p.1, σ (sharedNames p.2.comps)))
 
+/-- The set-iteration oracle the driver runs the model with. `table` = the iteration orders the rig observed on the very
+`set` objects handed to `graph_has_cycle`, keyed by the insertion sequence (the agent's shared names in component order).
+An observation is used only if it has exactly the elements that were inserted; anything else (a neighbour collection
+that lost or gained a name) is NOT followed — the model then iterates first occurrences in insertion order, so the
+implementation's deviation shows up as a disagreement instead of being copied into the model.
+`C10_sigmaOf_setLike` proves every such oracle is `SetLike`, i.e. inside the hypotheses of the game-level theorems. -/
+def sigmaOf (table : List (List Name × List Name)) (l : List Name) : List Name :=
+  match table.lookup l with
+  | some o => if o.all (fun x => decide (x ∈ l)) && l.all (fun x => decide (x ∈ o)) then o else l.eraseDups
+  | none => l.eraseDups
+
+/-- weight of a component whose configuration omits `weight` (`_SingleComponentConfig.weight: float = 1.0`) -/
+def defaultWeight : Val := 1
+
 structure AgentCfg where
   ref : Name
   comps : List (Comp × Val)
